@@ -10,7 +10,8 @@
      states      : list of [id; [g_tags g_accepted g_hook g_retry]; enter; exit; tags; accepted;
                             hook; retries; on_failure option]
      transitions : list of [event; src; dst option]
-     history     : list of [model; event]
+     history     : list of [0; model; event] | [1; event; src; dst option] (add_transition)
+                   | [2; event; src] (remove_transition(event, source=src))
      tags, hooks : the tag ids / hook ids that are inspected
    observation := [1; [1; exn]]                       construction raised
                 | [1; [0; tag table; steps; steps of the undecorated machine (no hooks inspected);
@@ -20,7 +21,7 @@
      tag table : per state, per inspected tag: [] (AttributeError) or [bool]
      step      : [items; result; per model [state; per inspected hook: [] or [object id]]] *)
 From Coq Require Import List Arith Bool.
-From M Require Import Sx Features FeaturesSpec FeaturesH.
+From M Require Import Sx Features FeaturesSpec FeaturesH FeaturesDyn.
 Import ListNotations.
 
 Definition d_feature (x : sx) : option feature :=
@@ -62,6 +63,16 @@ Definition e_fitem (i : fitem) : sx :=
   end.
 Definition e_fres (r : fres) : sx :=
   match r with RTrue => L [N 0; N 1] | RFalse => L [N 0; N 0] | RExn e => L [N 1; e_fexn e] end.
+
+(* history entry: [0; model; event] trigger, [1; event; src; dst option] add_transition,
+   [2; event; src] remove_transition(event, source=src) *)
+Definition d_op (x : sx) : option fop :=
+  match x with
+  | L [N 0; N m; N e] => Some (OTrig m e)
+  | L [N 1; N e; N s; d] => do d' <- d_option d_nat d; Some (OAdd (mkFT e s d'))
+  | L [N 2; N e; N s] => Some (ORemove e s)
+  | _ => None
+  end.
 
 Definition d_triple (x : sx) : option (nat * nat * nat) :=
   match x with L [N a; N b; N c] => Some (a, b, c) | _ => None end.
@@ -105,7 +116,7 @@ Definition run_features_case (x : sx) : sx :=
   match x with
   | L [ox; sx_; tx; ign; N nm; N s0; hx; tgx; hkx; px; ix; prex; clsx; N k] =>
       match d_list d_feature ox, d_list d_fstate sx_, d_list d_ftrans tx, d_bool ign,
-            d_list (d_pair d_nat d_nat) hx, d_list d_nat tgx, d_list d_nat hkx,
+            d_list d_op hx, d_list d_nat tgx, d_list d_nat hkx,
             d_list (d_pair d_nat (d_list d_nat)) px, d_list (d_pair d_nat d_nat) ix,
             d_list d_triple prex, d_list d_triple clsx with
       | Some o, Some sts, Some ts, Some ig, Some h, Some tags, Some hooks, Some paths, Some inits,
@@ -120,15 +131,15 @@ Definition run_features_case (x : sx) : sx :=
               match paths, inits with
               | [], [] =>
                   L [N 1; L [N 0; e_tagtable c tags;
-                             L (map (e_step cl nm hooks) (frun c w0 h));
-                             L (map (e_step nocl nm []) (frun (plain_cfg c) w0 h));
-                             L (map (e_sstep c cl nm hooks) (spec_run c (spec_init_p s0 (lookup3 pre) k) h));
-                             L (map (e_step cl nm hooks) (hrun (hflat c) w0 h))]]
+                             L (map (e_step cl nm hooks) (drun c ts w0 h));
+                             L (map (e_step nocl nm []) (drun (plain_cfg c) ts w0 h));
+                             L (map (e_sstep c cl nm hooks) (spec_drun c ts (spec_init_p s0 (lookup3 pre) k) h));
+                             L (map (e_step cl nm hooks) (hdrun (hflat c) ts w0 h))]]
               | _, _ =>
                   let hc := mkH c paths inits in
                   L [N 1; L [N 0; e_tagtable c tags;
-                             L (map (e_step cl nm hooks) (hrun hc w0 h));
-                             L (map (e_step nocl nm []) (hrun (hplain hc) w0 h));
+                             L (map (e_step cl nm hooks) (hdrun hc ts w0 h));
+                             L (map (e_step nocl nm []) (hdrun (hplain hc) ts w0 h));
                              L []; L []]]
               end
           end
